@@ -119,6 +119,36 @@ def ref_comb(v, axis, n, rep):
     return at_axis(v, axis, f)
 
 
+def ref_reduce(v, axis, name, mask, depth):
+    ident = {'sum': 0, 'max': -2 ** 63, 'min': 2 ** 63 - 1, 'count': 0, 'prod': 1}[name]
+
+    def leafop(xs):
+        xs = [x for x in xs if x is not None]
+        if name == 'count':
+            return len(xs)
+        if not xs:
+            return None if mask else ident
+        if name == 'sum':
+            return sum(xs)
+        if name == 'prod':
+            out = 1
+            for x in xs:
+                out *= x
+            return out
+        return max(xs) if name == 'max' else min(xs)
+
+    def red0(items, d):
+        # items: the entries along the reduced axis, each of depth d - 1 (d == 1: scalars)
+        if d == 1:
+            return leafop(items)
+        items = [x for x in items if x is not None]
+        m = max([len(x) for x in items] + [0])
+        return [red0([x[j] for x in items if len(x) > j], d - 1) for j in range(m)]
+    if axis == 0:
+        return red0(v, depth)
+    return [None if x is None else ref_reduce(x, axis - 1, name, mask, depth - 1) for x in v]
+
+
 def main():
     seed, count = int(sys.argv[1]), int(sys.argv[2])
     ops = sys.argv[3].split(',') if len(sys.argv) > 3 else ['num', 'localindex', 'rpad', 'rpadclip', 'flatten', 'sort', 'argsort', 'comb']
@@ -150,6 +180,10 @@ def main():
                             if axis != depth - 1: continue
                             asc = random.random() < 0.5
                             cmd, exp = '%s %d %d 1' % (op, ax, int(asc)), ref_sort(v, axis, asc, op == 'argsort')
+                        elif op == 'reduce':
+                            nm = random.choice(['sum', 'max', 'min', 'count', 'prod'])
+                            mk = random.random() < 0.5 and nm != 'count'
+                            cmd, exp = 'reduce %s %d %d 0' % (nm, ax, int(mk)), ref_reduce(v, axis, nm, mk, depth)
                         elif op == 'comb':
                             rep = random.random() < 0.5
                             cmd, exp = 'combinations 2 %d %d' % (int(rep), ax), ref_comb(v, axis, 2, rep)
